@@ -1,4 +1,5 @@
 #!/bin/bash
+V=${VERIF:-/verif}
 # tools/rf_run.sh <repo-dir> [ids...] : run quick checks against a refactored copy, print non-zero exits
 d=$1; shift; ids=${@:-$(seq -f "C%02g" 1 20)}
-for p in $ids; do ( timeout 900 ./check $p --no-evidence --out /tmp/rfout_$$ --repo $d > /tmp/rfout_$$_$p.txt 2>&1; rc=$?; if [ $rc != 0 ]; then echo "== $p exit $rc"; grep -E "^  \[|^ANALYSIS|^UNDECIDED" /tmp/rfout_$$_$p.txt | cut -c1-600 | head -6; fi; rm -f /tmp/rfout_$$_$p.txt ) & done; wait; rm -rf /tmp/rfout_$$
+for p in $ids; do ( timeout 900 $V/check $p --no-evidence --out /tmp/rfout_$$ --repo $d > /tmp/rfout_$$_$p.txt 2>&1; rc=$?; if [ $rc != 0 ]; then echo "== $p exit $rc"; grep -E "^  \[|^ANALYSIS|^UNDECIDED" /tmp/rfout_$$_$p.txt | cut -c1-600 | head -6; fi; rm -f /tmp/rfout_$$_$p.txt ) & done; wait; rm -rf /tmp/rfout_$$
